@@ -379,7 +379,31 @@ static void gen_case(rt_case *c, vrng *r, uint64_t idx)
 		size = (600u << 10) + vrng_below(r, 1u << 20);
 		if (!c->cfg.from_preset && c->cfg.lzma.dict_size > 65536) c->cfg.lzma.dict_size = 4096u << vrng_below(r, 5);
 	}
+	// LZMA2 chunk-size limits: a few inputs of several MiB that compress extremely well (one chunk holds at most
+	// 2 MiB uncompressed; the last match before the limit must not cross it whatever nice_len is)
+	bool huge_compressible = vrng_chance(r, 1, 60) && c->ep != EP_MICROLZMA && !(c->cfg.from_preset && (c->cfg.preset & 0x1F) > 6);
+	if (huge_compressible) size = (2u << 20) + vrng_below(r, 3u << 20) + vrng_below(r, 64);
 	c->kind = gen_data(r, &c->in, size, vrng_chance(r, 1, 30) ? GD_EMPTY : -1, c->cfg.lzma.dict_size);
+	if (huge_compressible) {
+		// overwrite with zeros / a short period (ratio far above 32:1)
+		unsigned period = vrng_chance(r, 1, 2) ? 1 : 2 + vrng_below(r, 40);
+		uint8_t pat[64]; vrng_fill(r, pat, sizeof(pat)); if (period == 1) pat[0] = 0;
+		for (size_t i = 0; i < c->in.n; ++i) c->in.p[i] = pat[i % period];
+		c->kind = GD_RUNS;
+	}
+	// chains with a BCJ filter: half of the inputs are code-like and end exactly at an instruction that the
+	// (first) BCJ filter converts, so that the filters' end-of-stream handling is exercised
+	for (unsigned fi = 0; fi + 1 < c->cfg.nfilters; ++fi) {
+		lzma_vli id = c->cfg.filters[fi].id;
+		if (id >= LZMA_FILTER_X86 && id <= LZMA_FILTER_RISCV && c->in.n >= 16 && !huge_compressible && vrng_chance(r, 1, 2)) {
+			vbuf code = {0};
+			gen_data(r, &code, c->in.n, id == LZMA_FILTER_X86 ? GD_CODE_X86 : GD_CODE_FIXED32, 0);
+			memcpy(c->in.p, code.p, c->in.n); vbuf_free(&code);
+			gen_tail_insn(r, id, c->in.p, c->in.n);
+			c->kind = id == LZMA_FILTER_X86 ? GD_CODE_X86 : GD_CODE_FIXED32;
+			break;
+		}
+	}
 	slice_plan_random(r, &c->enc_plan);
 	slice_plan_random(r, &c->dec_plan);
 	if (c->in.n > 200000) { // keep 1-byte slicing for small inputs
@@ -500,6 +524,15 @@ static void c06enc_case(uint64_t idx)
 	rt_case c; gen_case(&c, &r, idx);
 	c.bias = 0;
 	hx_case_begin(idx);
+	if (vrng_chance(&r, 1, 2) && !c.cfg.from_preset && c.in.n > 0) {
+		// the shape that makes an optimal parser's look-ahead matter: normal mode, moderate nice_len,
+		// word-chain text with long verbatim copies
+		c.cfg.lzma.mode = LZMA_MODE_NORMAL; c.cfg.lzma.nice_len = 8 + vrng_below(&r, 120);
+		if (c.cfg.lzma.nice_len < (c.cfg.lzma.mf & 0x0F)) c.cfg.lzma.nice_len = c.cfg.lzma.mf & 0x0F;
+		size_t n = 30000 + vrng_below(&r, 200000);
+		gen_data(&r, &c.in, n, GD_MARKOV, 0); c.kind = GD_MARKOV;
+		snprintf(c.cfg.desc + strlen(c.cfg.desc), sizeof(c.cfg.desc) - strlen(c.cfg.desc), ",->normal,nice=%u", c.cfg.lzma.nice_len);
+	}
 	switch (c.ep) {
 	case EP_MICROLZMA: c.ep = EP_ALONE; break;
 	case EP_EASY_BUF: c.ep = EP_EASY; break;
